@@ -48,7 +48,7 @@ fn init() -> State {
     let _ = crate::exittrap::AT_EXIT.set(flush_now);
     let ids = prop.identities();
     let identity = ids[shard % ids.len()].clone();
-    dut::verif_api::set_calling_process(&identity);
+    crate::runner::apply_identity(&identity);
     let scratch = verif_root().join("target/scratch");
     let _ = fs::create_dir_all(&scratch);
     let tier = Tier::parse(&std::env::var("VFUZZ_TIER").unwrap_or_else(|_| "thorough".to_string()));
